@@ -308,18 +308,23 @@ Proof.
   intros Hk Hbk Hc. eapply update_chunks; [apply rel_init; assumption|exact Hc].
 Qed.
 
-(* ---------- the Lua entry point: the full rejection statement and why it fails today ---------- *)
+(* ---------- the Lua entry point: every argument outside the documented domain is refused ---------- *)
 
-(* documented: "digln: between 1 and 64", "key length between 1 and 64" — every other argument is an error *)
+(* documented: "digln: between 1 and 64", "key length between 1 and 64" - every other argument is an error *)
 Definition lblake2b_rejects_full : Prop := forall msg digln key,
   (64 < length key)%nat \/ digln < 1 \/ 64 < digln ->
   lblake2b msg digln key = LErrKeySize \/ lblake2b msg digln key = LErrDigestSize.
 
-(* `int digln = luaL_optinteger(L, 2, 64)`: 2^32 + 5 is truncated to 5 before the range test *)
-Lemma lblake2b_rejects_refuted : ~ lblake2b_rejects_full.
+(* holds since ede4fb9 (`lua_Integer digln`): depends on the scraped fact that digln is not a C int any more; with
+   `int digln` the statement is false (2^32 + 5 is truncated to 5 before the range test) and this proof breaks *)
+Lemma digln_not_truncated : DIGLN_IS_C_INT = false. Proof. reflexivity. Qed.
+
+Lemma lblake2b_rejects_full_holds : lblake2b_rejects_full.
 Proof.
-  intros H. specialize (H [120] 4294967301 [] ltac:(right; right; reflexivity)).
-  vm_compute in H. destruct H as [H|H]; discriminate H.
+  intros msg digln key Hbad. unfold lblake2b. rewrite digln_not_truncated.
+  rewrite maxkey_eq, mindig_eq, maxdig_eq.
+  destruct (Z.ltb_spec 64 (Z.of_nat (length key))); [left; reflexivity|].
+  destruct (Z.ltb_spec digln 1); [right; reflexivity|]. destruct (Z.ltb_spec 64 digln); [right; reflexivity|]. lia.
 Qed.
 
 Lemma lblake2b_default_ok msg : Forall is_byte msg ->
